@@ -42,7 +42,7 @@ Record rule := Rule { ru_role : rrole; ru_count : Z; ru_cons : list lcons; ru_la
 Record rulefit := RuleFit { rf_rule : rule; rf_peers : list peer; rf_loose : list peer }.
 Record fit := Fit { fit_rules : list rulefit; fit_orphans : list peer }.
 
-Inductive entry := EReplica | ERule.
+Inductive entry := EReplica | ERule | EController.   (* ReplicaChecker.Check / RuleChecker.Check / CheckerController.CheckRegion *)
 Record input := Input { i_cfg : config; i_stores : list store; i_region : region; i_fit : fit; i_entry : entry }.
 
 (* ---------- label constraints (placement/label_constraint.go) ---------- *)
@@ -185,12 +185,13 @@ Definition replace_feasible (inp : input) (old new : Z) (new_learner : bool) : b
 Inductive stage :=
 | StDown | StOffline | StExtraDown | StExtraOffline | StMakeUp | StExtra | StLocation         (* replica checker *)
 | StOrphan | StRuleAdd | StRuleDown | StRuleOffline | StRuleRole | StRuleLocation | StSplit   (* rule checker *)
+| StJoint | StLearner                                                                         (* joint-state checker, learner checker *)
 | StOther.
 Definition stage_idx (s : stage) : Z :=
   match s with
   | StDown => 0 | StOffline => 1 | StExtraDown => 2 | StExtraOffline => 3 | StMakeUp => 4 | StExtra => 5 | StLocation => 6
   | StOrphan => 7 | StRuleAdd => 8 | StRuleDown => 9 | StRuleOffline => 10 | StRuleRole => 11 | StRuleLocation => 12
-  | StSplit => 13 | StOther => 14
+  | StSplit => 13 | StOther => 14 | StJoint => 15 | StLearner => 16
   end.
 Definition stage_eqb (a b : stage) : bool := stage_idx a =? stage_idx b.
 
@@ -200,7 +201,8 @@ Inductive aop :=
 | AReplace (old new : Z) (learner : bool)
 | APromote (s : Z)
 | ATransfer (to : Z)
-| ANoChange.          (* split, or steps that change neither membership nor leader *)
+| ANoChange           (* split, or steps that change neither membership nor leader *)
+| AAny.               (* model side only: any steps (leave-joint-state: roles and possibly the leader change) *)
 Definition aop_eqb (a b : aop) : bool :=
   match a, b with
   | AAdd t l, AAdd t' l' => (t =? t') && Bool.eqb l l'
@@ -209,6 +211,7 @@ Definition aop_eqb (a b : aop) : bool :=
   | APromote s, APromote s' => s =? s'
   | ATransfer t, ATransfer t' => t =? t'
   | ANoChange, ANoChange => true
+  | AAny, _ | _, AAny => true
   | _, _ => false
   end.
 
@@ -407,8 +410,48 @@ Definition rule_check (inp : input) : list res :=
   | rfs => cascade (fix_orphan inp :: map (fix_rule_peer inp) rfs)
   end.
 
+(* ---------- CheckerController.CheckRegion: joint-state checker, then rule checker, or learner checker and
+   replica checker (the merge checker has nothing to merge in a one-region cluster) ---------- *)
+Definition then_ (a b : list res) : list res := flat_map (fun x => match x with Some _ => [x] | None => b end) a.
+
+(* NewBuilder's checks without the joint-state check (SkipOriginJointStateCheck) *)
+Definition region_ok_nojoint (inp : input) : bool :=
+  let r := i_region inp in
+  forallb (fun p => negb (p_store p =? 0)) (peers r)
+  && memZ (leader_store r) (stores_of (peers r)) && negb (leader_store r =? 0)
+  && (if rules_enabled (i_cfg inp) then match fit_rules (i_fit inp) with [] => false | _ => true end else true).
+
+Definition joint_stage (inp : input) : list res :=
+  if in_joint (peers (i_region inp)) && region_ok_nojoint inp then [Some (StJoint, AAny)] else [None].
+
+(* Builder.unhealthyPeers: the stores of pending and down peers *)
+Definition unhealthy_stores (r : region) : list Z :=
+  map (fun d => p_store (fst d)) (down r) ++ flat_map (fun p => if memZ (p_id p) (pending r) then [p_store p] else []) (peers r).
+
+(* LearnerChecker: the first learner (GetLearners is sorted by peer id) whose promotion the builder accepts *)
+Fixpoint insert_by_id (p : peer) (l : list peer) : list peer :=
+  match l with [] => [p] | q :: r => if p_id p <=? p_id q then p :: q :: r else q :: insert_by_id p r end.
+Definition learner_stage (inp : input) : list res :=
+  let r := i_region inp in
+  let ls := fold_right insert_by_id [] (filter is_learner (peers r)) in
+  match filter (fun p => negb (memZ (p_store p) (unhealthy_stores r))) ls with
+  | p :: _ => if region_ok inp then [Some (StLearner, APromote (p_store p))] else [None]
+  | [] => [None]
+  end.
+
+Definition controller_check (inp : input) : list res :=
+  then_ (joint_stage inp)
+        (if rules_enabled (i_cfg inp) then rule_check inp else then_ (learner_stage inp) (replica_check inp)).
+
 Definition model_check (inp : input) : list res :=
-  match i_entry inp with EReplica => replica_check inp | ERule => rule_check inp end.
+  match i_entry inp with EReplica => replica_check inp | ERule => rule_check inp | EController => controller_check inp end.
+
+(* the checker that speaks for an entry point (for the monitor's clauses) *)
+Definition eff_entry (inp : input) : entry :=
+  match i_entry inp with
+  | EController => if rules_enabled (i_cfg inp) then ERule else EReplica
+  | e => e
+  end.
 
 (* ---------- the implementation's operator, abstracted ---------- *)
 Definition start_state (r : region) : rstate := RState (peers r) (leader_store r).
@@ -559,20 +602,21 @@ Definition target_faults (inp : input) (coloc_opts : list (strategy * list store
    ones (replica checker); for some rule, the stores of the rule's peers minus the removed ones (rule checker) *)
 Definition coloc_options (inp : input) (rm : list Z) : list (strategy * list store) :=
   let minus := fun l => filter (fun s => negb (memZ (sid s) rm)) l in
-  match i_entry inp with
-  | EReplica => [(replica_strategy (i_cfg inp), minus (region_stores (i_stores inp) (i_region inp)))]
+  match eff_entry inp with
   | ERule => map (fun rf => (rule_strategy (rf_rule rf), minus (rule_stores (i_stores inp) rf))) (fit_rules (i_fit inp))
+  | _ => [(replica_strategy (i_cfg inp), minus (region_stores (i_stores inp) (i_region inp)))]
   end.
 
 Definition removal_allowed (inp : input) (rm : list Z) : bool :=
-  match i_entry inp with
-  | EReplica => max_replicas (i_cfg inp) <? voter_count (i_region inp)
+  match eff_entry inp with
   | ERule => forallb rf_satisfied (fit_rules (i_fit inp))
              && forallb (fun s => existsb (fun o => p_store o =? s) (fit_orphans (i_fit inp))) rm
+  | _ => max_replicas (i_cfg inp) <? voter_count (i_region inp)
   end.
 
 Definition repair_required (inp : input) : bool :=
-  match i_entry inp with
+  match eff_entry inp with
+  | EController => false
   | EReplica =>
       en_make_up (i_cfg inp) && region_ok inp && (peer_count (i_region inp) <? max_replicas (i_cfg inp))
       && match select_to_add (replica_strategy (i_cfg inp)) (i_stores inp) (i_region inp)
